@@ -425,6 +425,15 @@ class ColorValue(Value):
                             raw.append(int(255 * item.value.value / 100))
                         check += 'P'
 
+                if len(raw) < 3:
+                    # the optional sign makes the productions above accept
+                    # a function with fewer than three components
+                    self._log.error('ColorValue has too few %s) parameters: '
+                                    '%s (N=Number, P=Percentage)' %
+                                    (functiontype, check))
+                    self.wellformed = False
+                    return
+
                 if HSL:
                     # convert to rgb
                     # h is 360 based (circle)
